@@ -112,4 +112,23 @@ PROPS = {
             {"kind": "rec", "scenario": "C10", "count": {"quick": 15000, "thorough": 300000}, "trace_module": "Trace_Geo", "trace_cfg": "Trace_Geo.cfg"},
         ],
     },
+    "C11": {
+        "level": "model_checking",
+        "claim": "The same rank definition / closed form of HpxRing (model-checked for every N <= 8 including 3, 5, 6, 7) judges ring::hash at "
+                 "arbitrary NSIDE: the returned index must be the RING index of a cell of StarFace(face of the position) at subdivision NSIDE. "
+                 "TLC enumerates every face for NSIDE 1..7 (1..17, 20, 24 thorough) and the seam / pole / transition classes for large and odd "
+                 "NSIDE up to 2^29, replayed with +-ulp nudges; recorded calls (hash, hash_with_dxdy with sph_coo inversion, center with "
+                 "hash(center(h)) = h and the 4 vertices being the nodes of the cell, rejections) for random NSIDE incl. primes / 2^29-1 / 2^29 "
+                 "are validated by the trace spec.",
+        "rule": "events = ring::hash / hash_with_dxdy / sph_coo / center / vertices / out-of-range calls for seeded NSIDE (small, odd, prime, huge) on "
+                "uniform, adversarial and exact border positions (lon = k*pi/2 in the caps, transition corners, poles); non-trivial = position on an "
+                "edge or node, or non-uniform class, or not a hash event",
+        "assumptions": GEO_ASSUME,
+        "stages": [
+            {"kind": "mc", "module": "MC_Ring", "cfg": {"quick": "MC_Ring.cfg", "thorough": "MC_Ring_thorough.cfg"}, "workers": 6},
+            {"kind": "gen", "module": "Gen_Ring", "cfg": {"quick": "Gen_Ring_faces.cfg", "thorough": "Gen_Ring_faces_thorough.cfg"}, "scenario": "C11", "exhaustive": True},
+            {"kind": "rec", "scenario": "C11", "count": {"quick": 16000, "thorough": 400000}, "trace_module": "Trace_Geo", "trace_cfg": "Trace_Geo.cfg",
+             "nontrivial": seamish},
+        ],
+    },
 }
